@@ -67,7 +67,7 @@ type c15Env struct {
 	// vacuity counters
 	nStale, nConflict, nApplied, nClamped, nCreateExisting, nCreateNew   atomic.Int64
 	nAdvApplied, nAdvConflict, nAdvNoop, nDelete, nBump, nLiteral, nPair atomic.Int64
-	nFsmStale                                                            atomic.Int64
+	nFsmStale, nPair2, nPair2Failed                                      atomic.Int64
 }
 
 func c15Open(r *ev.R, n int) (*c15Env, error) {
@@ -214,7 +214,7 @@ var c15PairMenu = []string{
 	"e2.l2.L1.s100.rg4", "e1.l2.L1.s100.status2",
 }
 
-var c15AdvKinds = []string{"match", "epoch+1", "leaderepoch+1", "otherleader", "lease+1"}
+var c15AdvKinds = []string{"match", "epoch+1", "leaderepoch-up", "otherleader", "lease+1"}
 
 func (e *c15Env) buildAlphabet(thorough bool) {
 	e.cands = c15Candidates(thorough)
@@ -674,7 +674,7 @@ func (in *c15Inst) Apply(evl string, _ *mc.Env) (string, error) {
 		switch f[0] {
 		case "epoch+1":
 			req.ExpectedChannelEpoch++
-		case "leaderepoch+1":
+		case "leaderepoch-up":
 			req.ExpectedLeaderEpoch++
 		case "otherleader":
 			req.ExpectedLeader = 3 - req.ExpectedLeader
@@ -777,6 +777,280 @@ func (in *c15Inst) Apply(evl string, _ *mc.Env) (string, error) {
 	return obs, nil
 }
 
+// ---------------------------------------------------------------- same-channel write pairs in ONE batch
+
+// The pairs systems stage two writes to the SAME channel into one atomic batch (direct: one
+// WriteBatch; fsm: two commands in one ApplyBatch) and compare the stored row with a shadow
+// channel that received the same two writes in separate batches. The per-commit runtime-meta
+// cache (batchCommitState.runtimeMeta) must make the second write see the first.
+
+type c15Op struct {
+	kind string // upsert create advance delete
+	m    meta.ChannelRuntimeMeta
+	req  meta.ChannelRetentionAdvance
+}
+
+func (o c15Op) onChannel(id string) c15Op {
+	o.m.ChannelID, o.req.ChannelID = id, id
+	o.m.Replicas = append([]uint64(nil), o.m.Replicas...)
+	o.m.ISR = append([]uint64(nil), o.m.ISR...)
+	return o
+}
+
+// c15BatchDirect: result class, failed (= nothing applied, the batch is atomic), error
+func c15BatchDirect(d *c15DB, ops []c15Op) (string, bool, error) {
+	wb := d.db.NewWriteBatch()
+	defer wb.Close()
+	var created []*meta.ChannelRuntimeMetaCreateResult
+	for _, o := range ops {
+		var err error
+		switch o.kind {
+		case "upsert":
+			err = wb.UpsertChannelRuntimeMeta(c15HashSlot, o.m)
+		case "create":
+			var cr *meta.ChannelRuntimeMetaCreateResult
+			cr, err = wb.CreateChannelRuntimeMeta(c15HashSlot, o.m)
+			created = append(created, cr)
+		case "advance":
+			err = wb.AdvanceChannelRetentionThroughSeq(c15HashSlot, o.req)
+		case "delete":
+			err = wb.DeleteChannelRuntimeMeta(c15HashSlot, o.m.ChannelID, o.m.ChannelType)
+		}
+		if err != nil {
+			return "", false, err
+		}
+	}
+	err := wb.Commit()
+	switch {
+	case err == nil:
+		res := "ok"
+		for _, c := range created {
+			res += fmt.Sprintf("/created=%v", c.Created)
+		}
+		return res, false, nil
+	case errors.Is(err, meta.ErrStaleMeta):
+		return "conflict", true, nil
+	case errors.Is(err, meta.ErrNotFound):
+		return "notfound", true, nil
+	}
+	return "", false, err
+}
+
+func c15BatchFSM(d *c15DB, ops []c15Op) (string, bool, error) {
+	cmds := make([]multiraft.Command, len(ops))
+	for i, o := range ops {
+		var data []byte
+		switch o.kind {
+		case "upsert":
+			data = fsm.EncodeUpsertChannelRuntimeMetaCommand(o.m)
+		case "create":
+			var err error
+			if data, err = fsm.EncodeCreateChannelRuntimeMetaBatchCommandChecked([]fsm.CreateChannelRuntimeMetaBatchItem{{HashSlot: c15HashSlot, Meta: o.m}}); err != nil {
+				return "", false, err
+			}
+		case "advance":
+			data = fsm.EncodeAdvanceChannelRetentionThroughSeqCommand(o.req)
+		case "delete":
+			data = fsm.EncodeDeleteChannelRuntimeMetaCommand(o.m.ChannelID, o.m.ChannelType)
+		}
+		cmds[i] = multiraft.Command{SlotID: multiraft.SlotID(c15SlotID), HashSlot: c15HashSlot, Data: data}
+	}
+	res, err := d.sm.ApplyBatch(context.Background(), cmds)
+	if err != nil {
+		return "", false, err
+	}
+	parts := make([]string, len(res))
+	for i, b := range res {
+		parts[i] = string(b)
+		if ops[i].kind == "create" {
+			outs, err := fsm.DecodeCreateChannelRuntimeMetaBatchResult(b)
+			if err != nil || len(outs) != 1 {
+				return "", false, fmt.Errorf("create command result %q: %v", b, err)
+			}
+			parts[i] = fmt.Sprintf("created=%v", outs[0].Created)
+		}
+	}
+	return strings.Join(parts, "+"), false, nil
+}
+
+var c15PairSingles = []string{"up=e1.l1.L1.s100.base", "up=e1.l1.L1.s100.ret5t50", "up=e1.l2.L1.s200.base", "up=e2.l1.L2.s100.fence1t1",
+	"del", "adv=hi", "adv=mid", "renew", "leaderepoch-up", "status"}
+var c15PairFirst = []string{"adv=hi", "adv=mid", "adv=stale"}
+var c15PairSecond = []string{"adv=hi", "adv=mid", "adv=lo", "adv=stale", "renew", "leaderepoch-up", "status", "samegen", "create", "del"}
+var c15PairOtherFirst = []string{"renew", "leaderepoch-up", "status", "samegen", "create", "del"}
+
+func c15PairEvents() []string {
+	var evs []string
+	for _, s := range c15PairSingles {
+		evs = append(evs, "one:"+s)
+	}
+	for _, a := range c15PairFirst {
+		for _, b := range c15PairSecond {
+			evs = append(evs, "two:"+a+"+"+b)
+		}
+	}
+	for _, a := range c15PairOtherFirst {
+		for _, b := range []string{"adv=hi", "adv=stale"} {
+			evs = append(evs, "two:"+a+"+"+b)
+		}
+	}
+	return evs
+}
+
+type c15PairInst struct {
+	c15Inst
+	evs      []string
+	batch    func(*c15DB, []c15Op) (string, bool, error)
+	seqSplit bool // fsm: the reference results are compared command by command
+	shadowID string
+	srow     meta.ChannelRuntimeMeta
+	sexists  bool
+}
+
+func (in *c15PairInst) Events() []string { return in.evs }
+
+func (in *c15PairInst) Close() {
+	if in.d == nil {
+		return
+	}
+	if in.dirty {
+		_ = in.shard().DeleteChannelRuntimeMeta(context.Background(), in.shadowID, c15ChannelType)
+	}
+	in.c15Inst.Close()
+}
+
+func (in *c15PairInst) Canon() string {
+	return c15Row(in.row, in.exists) + " | shadow " + c15Row(in.srow, in.sexists)
+}
+
+// op builds one write relative to the row stored BEFORE the batch (o, oex)
+func (in *c15PairInst) op(tok string, o meta.ChannelRuntimeMeta, oex bool) c15Op {
+	base := meta.ChannelRuntimeMeta{ChannelID: in.chID, ChannelType: c15ChannelType, ChannelEpoch: 1, LeaderEpoch: 1, Leader: 1, LeaseUntilMS: 100,
+		Replicas: []uint64{1, 2, 3}, ISR: []uint64{1, 2, 3}, MinISR: 2, Status: 1, Features: 1}
+	if oex {
+		base.ChannelEpoch, base.LeaderEpoch, base.Leader, base.LeaseUntilMS = o.ChannelEpoch, o.LeaderEpoch, o.Leader, o.LeaseUntilMS
+	}
+	adv := func(seq uint64, ts int64, leaseDelta int64) c15Op {
+		return c15Op{kind: "advance", req: meta.ChannelRetentionAdvance{ChannelID: in.chID, ChannelType: c15ChannelType,
+			ExpectedChannelEpoch: base.ChannelEpoch, ExpectedLeaderEpoch: base.LeaderEpoch, ExpectedLeader: base.Leader,
+			ExpectedLeaseUntilMS: base.LeaseUntilMS + leaseDelta, RetentionThroughSeq: seq, RetentionUpdatedAtMS: ts}}
+	}
+	switch {
+	case strings.HasPrefix(tok, "up="):
+		return c15Op{kind: "upsert", m: in.cand(tok[3:])}
+	case tok == "del":
+		return c15Op{kind: "delete", m: base}
+	case tok == "create":
+		m := in.cand("e1.l1.L1.s100.base")
+		return c15Op{kind: "create", m: m}
+	case tok == "adv=hi":
+		return adv(o.RetentionThroughSeq+7, 60, 0)
+	case tok == "adv=mid":
+		return adv(o.RetentionThroughSeq+4, 45, 0)
+	case tok == "adv=lo":
+		return adv(o.RetentionThroughSeq+2, 44, 0)
+	case tok == "adv=stale":
+		return adv(o.RetentionThroughSeq+9, 61, 1)
+	case tok == "renew": // same-epoch upsert: lease renewal, carries no retention
+		base.LeaseUntilMS += 100
+		return c15Op{kind: "upsert", m: base}
+	case tok == "leaderepoch-up":
+		base.LeaderEpoch++
+		base.Leader = 3 - base.Leader
+		return c15Op{kind: "upsert", m: base}
+	case tok == "status":
+		base.Status = 2
+		return c15Op{kind: "upsert", m: base}
+	case tok == "samegen": // explicit route generation == the generation stored before the batch
+		base.LeaseUntilMS += 50
+		base.RouteGeneration = o.RouteGeneration
+		if !oex {
+			base.RouteGeneration = 1
+		}
+		return c15Op{kind: "upsert", m: base}
+	}
+	panic("unknown op " + tok)
+}
+
+func (in *c15PairInst) Apply(evl string, _ *mc.Env) (string, error) {
+	o, oex := in.row, in.exists
+	in.dirty = true
+	in.steps++
+	f := strings.SplitN(evl, ":", 2)
+	toks := strings.Split(f[1], "+")
+	var ops, sops []c15Op
+	hasDelete := false
+	for _, tk := range toks {
+		op := in.op(tk, o, oex)
+		ops = append(ops, op.onChannel(in.chID))
+		sops = append(sops, op.onChannel(in.shadowID))
+		hasDelete = hasDelete || op.kind == "delete"
+	}
+	res, failed, err := in.batch(in.d, ops)
+	if err != nil {
+		return in.infra(evl, err)
+	}
+	var seqRes []string
+	if !failed { // reference: the same writes, each in its own batch
+		for _, so := range sops {
+			sr, _, serr := in.batch(in.d, []c15Op{so})
+			if serr != nil {
+				return in.infra(evl, serr)
+			}
+			seqRes = append(seqRes, sr)
+		}
+	}
+	n, nex, err := in.read()
+	if err != nil {
+		return in.infra(evl, err)
+	}
+	sn, snex, err := in.shard().GetChannelRuntimeMeta(context.Background(), in.shadowID, c15ChannelType)
+	if err != nil {
+		return in.infra(evl, err)
+	}
+	in.row, in.exists, in.srow, in.sexists = n, nex, sn, snex
+	obs := f[0] + "-" + res
+	if len(ops) > 1 {
+		in.env.nPair2.Add(1)
+		if failed {
+			in.env.nPair2Failed.Add(1)
+		}
+	}
+	if c15Row(n, nex) != c15Row(sn, snex) {
+		return obs, mc.Violatef("C15:atomic-batch-differs-from-sequential-writes", "%s: row after the atomic batch {%s} differs from the row after the same writes in separate batches {%s} (before: {%s})", evl, c15Row(n, nex), c15Row(sn, snex), c15Row(o, oex))
+	}
+	if in.seqSplit && !failed && res != strings.Join(seqRes, "+") {
+		return obs, mc.Violatef("C15:atomic-batch-results-differ-from-sequential-writes", "%s: command results of one ApplyBatch %q differ from the results of separate ApplyBatch calls %q (before: {%s})", evl, res, strings.Join(seqRes, "+"), c15Row(o, oex))
+	}
+	if failed {
+		if err := in.unchanged("C15:stale-or-conflict-result-changed-row", evl, "atomic batch reported "+res, o, oex, n, nex); err != nil {
+			return obs, err
+		}
+	}
+	if oex && nex && !hasDelete {
+		if err := in.monotone(evl, o, n); err != nil {
+			return obs, err
+		}
+	}
+	if oex && !nex && !hasDelete {
+		return obs, mc.Violatef("C15:upsert-left-no-row", "%s: the row disappeared without a delete (before: {%s})", evl, c15Row(o, oex))
+	}
+	if c15Row(o, oex) == c15Row(n, nex) {
+		return obs + "/unchanged", nil
+	}
+	return obs + "/changed", nil
+}
+
+func (e *c15Env) newPairInst(evs []string, fsmDriven bool) *c15PairInst {
+	base := e.newInst(nil, !fsmDriven)
+	in := &c15PairInst{c15Inst: *base, evs: evs, shadowID: base.chID + "-s", seqSplit: fsmDriven}
+	in.batch = c15BatchDirect
+	if fsmDriven {
+		in.batch = c15BatchFSM
+	}
+	return in
+}
+
 // ---------------------------------------------------------------- test
 
 func TestVerifC15(t *testing.T) {
@@ -807,9 +1081,25 @@ func TestVerifC15(t *testing.T) {
 	}
 	d := run("runtime-meta-direct", c15Direct{}, true, ev.Pick(r, 3, 4), 0, ev.Pick(r, int64(60000), int64(600000)))
 	f := run("runtime-meta-fsm", c15FSM{}, false, ev.Pick(r, 2, 3), 32, ev.Pick(r, int64(20000), int64(60000)))
+	pevs := c15PairEvents()
+	runPairs := func(name string, fsmDriven bool, depth, workers int) mc.Result {
+		return mc.Run(r, mc.System{
+			Name: name, New: func() mc.Instance { return env.newPairInst(pevs, fsmDriven) },
+			MaxDepth: depth, Workers: workers, MaxStates: 400000, KeepGoing: true,
+			Bounds: map[string]any{"events": len(pevs), "single_writes": c15PairSingles,
+				"pairs": "first in {advance +7, advance +4, advance behind a stale fence} x second in {advance +7/+4/+2/stale, same-epoch lease renewal, higher leader epoch, status change, explicit route generation == pre-batch generation, create-if-absent, delete}; plus {renewal, leader epoch, status, same generation, create, delete} x {advance +7, stale advance}"},
+			Note: "two writes to the same channel in ONE atomic batch vs a shadow channel that receives them in separate batches (differential) + the monotonicity oracle on the batch as one transition",
+		})
+	}
+	pd := runPairs("runtime-meta-pairs-direct", false, ev.Pick(r, 3, 4), 0)
+	pf := runPairs("runtime-meta-pairs-fsm", true, ev.Pick(r, 3, 4), 32)
 	if r.Replay() != nil {
 		return
 	}
+	r.Count("same_channel_write_pairs_in_one_batch", env.nPair2.Load())
+	r.Count("same_channel_write_pairs_failed_atomically", env.nPair2Failed.Load())
+	r.Guard("same-channel-write-pairs-seen", env.nPair2.Load() >= 1000 && env.nPair2Failed.Load() >= 10 && pd.States >= 100 && pf.States >= 100,
+		"pairs=%d failed atomically=%d states direct=%d fsm=%d", env.nPair2.Load(), env.nPair2Failed.Load(), pd.States, pf.States)
 	r.Count("upsert_stale", env.nStale.Load())
 	r.Count("upsert_conflict", env.nConflict.Load())
 	r.Count("upsert_applied_on_existing_row", env.nApplied.Load())
